@@ -155,7 +155,7 @@ def pair_table(an, rep, features="default"):
         R.check(okk, s, "pair", "type has %d serializer and %d deserializer impls" % (len(ser.get(s, [])), len(de.get(s, []))),
                 None, sample={"type": s, "pair": True})
         pairs += okk
-    floor = {"default": 56, "none": 38, "bigdecimal": 40, "chrono": 53, "uuid": 39}.get(features, 30)
+    floor = {"default": 56, "none": 42, "bigdecimal": 44, "chrono_bigdecimal": 55, "uuid": 43}.get(features, 30)
     R.floor("codec pairs (%s features)" % features, pairs, floor)
     return R
 
@@ -309,7 +309,7 @@ def writers_conform(an, rep, features="default"):
         want = [[(x[0], x[1], x[2]) for x in alt] for alt in FORMAT[s]]
         R.check(sorted(map(repr, got)) == sorted(map(repr, want)), key, "grammar", "writer emits %s; the format prescribes %s" %
                 (got, want), mir.loc(b, 0), sample={"type": s, "grammar": repr(want)})
-    R.floor("leaf / composite writers checked", n, {"default": 45}.get(features, 25))
+    R.floor("leaf / composite writers checked", n, {"default": 48, "none": 34, "bigdecimal": 36, "chrono_bigdecimal": 47, "uuid": 35}.get(features, 25))
     return R
 
 
